@@ -9,6 +9,7 @@ import (
 	"net/http"
 	"net/url"
 	"sort"
+	"strconv"
 	"strings"
 
 	"github.com/getkin/kin-openapi/openapi3"
@@ -105,17 +106,30 @@ func ValidateRequest(ctx context.Context, input *RequestValidationInput) error {
 	return nil
 }
 
+// formatDefault renders a default value the way the parameter decoders read it
+// back: numbers in plain decimal notation (fmt.Sprint switches to an exponent
+// from 1e+06 on, which is not a valid integer).
+func formatDefault(v any) string {
+	switch x := v.(type) {
+	case float64:
+		return strconv.FormatFloat(x, 'f', -1, 64)
+	case float32:
+		return strconv.FormatFloat(float64(x), 'f', -1, 32)
+	}
+	return fmt.Sprint(v)
+}
+
 // appendToQueryValues adds to query parameters each value in the provided slice
 func appendToQueryValues[T any](q url.Values, parameterName string, v []T) {
 	for _, i := range v {
-		q.Add(parameterName, fmt.Sprint(i))
+		q.Add(parameterName, formatDefault(i))
 	}
 }
 
 func joinValues(values []any, sep string) string {
 	strValues := make([]string, 0, len(values))
 	for _, v := range values {
-		strValues = append(strValues, fmt.Sprint(v))
+		strValues = append(strValues, formatDefault(v))
 	}
 	return strings.Join(strValues, sep)
 }
@@ -130,7 +144,7 @@ func populateDefaultQueryParameters(q url.Values, parameterName string, value an
 			q.Add(parameterName, joinValues(t, ","))
 		}
 	default:
-		q.Add(parameterName, fmt.Sprint(value))
+		q.Add(parameterName, formatDefault(value))
 	}
 }
 
@@ -197,11 +211,11 @@ func ValidateParameter(ctx context.Context, input *RequestValidationInput, param
 				populateDefaultQueryParameters(q, parameter.Name, value, explode)
 				req.URL.RawQuery = q.Encode()
 			case openapi3.ParameterInHeader:
-				req.Header.Add(parameter.Name, fmt.Sprint(value))
+				req.Header.Add(parameter.Name, formatDefault(value))
 			case openapi3.ParameterInCookie:
 				req.AddCookie(&http.Cookie{
 					Name:  parameter.Name,
-					Value: fmt.Sprint(value),
+					Value: formatDefault(value),
 				})
 			}
 		}
